@@ -406,7 +406,7 @@ class Unit:
                         raise Maintenance('%s:%d: //@at %s needs `tokens`' % (self.path, d.line, w))
                     pat = X.Pat(m2.group(1))
                     ms = X.find_matches(pat, item, p['body'], p['body_end'])
-                    ms = [mm for mm in ms if item[mm[0]].file != 'unit']
+                    ms = [mm for mm in ms if any(item[k].file != 'unit' for k in range(mm[0], mm[1]))]
                     nth = int(m2.group(2)) if m2.group(2) else None
                     if nth is None and len(ms) != 1:
                         raise Maintenance('%s: text anchor `%s` matches %d times (unit line %d)' % (qual, m2.group(1), len(ms), d.line))
